@@ -1,6 +1,7 @@
 package main
 
 import (
+	"encoding/json"
 	"flag"
 	"fmt"
 	"os"
@@ -51,6 +52,8 @@ func main() {
 			to = 30
 		}
 		os.Exit(runConformance(*repo, *verif, n, to, *par))
+	case "pins":
+		os.Exit(runPins(*repo, *verif))
 	case "vc", "ssa", "list", "locals":
 		os.Exit(runDebug(cmd, *repo, *verif, *fnKey, *out, *timeout, *par))
 	default:
@@ -204,4 +207,28 @@ func runDebug(cmd, repo, verif, fnKey, out string, timeout, par int) int {
 		}
 	}
 	return rc
+}
+
+// runPins rewrites /verif/props/pins.json: the body fingerprints of every trusted repository contract without a verified
+// counterpart. To be run (and the diff reviewed) when such a function is changed on purpose.
+func runPins(repo, verif string) int {
+	var pats []string
+	for _, m := range append(append([]string{}, customModules...), "jklmint") {
+		pats = append(pats, "./x/"+m, "./x/"+m+"/keeper", "./x/"+m+"/types")
+	}
+	pats = append(pats, "./types", "./wasmbinding")
+	w, err := loadWorkspace(repo, verif, pats)
+	if err != nil {
+		fmt.Println("pins: ", err)
+		return 2
+	}
+	var ks []string
+	for k := range w.contracts {
+		ks = append(ks, k)
+	}
+	pins := w.pinnedTrusted(ks)
+	b, _ := json.MarshalIndent(pins, "", " ")
+	os.WriteFile(filepath.Join(verif, "props", "pins.json"), append(b, '\n'), 0o644)
+	fmt.Printf("pins: %d trusted bodies pinned\n", len(pins))
+	return 0
 }
